@@ -2,7 +2,7 @@ SPECIFICATION GenSpec
 CONSTANTS
   Alphabet <- Alpha5
   Ranges <- Rng1
-  MaxLen = 4
+  MaxLen = 3
   Limit = 65535
   Chunked = TRUE
   NoRangeLen = 3
